@@ -153,10 +153,16 @@ def case_entry(case):
     _cmp(nit, q.magnitude, want, kind, row["tol"], f"Q(1,{sp!r}).to({row['target']!r})")
     # the same factor through the base-unit machinery of the default (SI/mks) system; asked for every spelling and on
     # both passes over the table, so a factor cached under a wrong key shows up
+    for other in ("imperial", "cgs"):
+        attempt(ureg.get_base_units, sp, system=other)  # a question about another system in between does not change the default system's answer
     s, fb = attempt(ureg.get_base_units, sp)
     if s == "err":
         raise Violation(f"standard_unreadable:{name}", f"get_base_units({sp!r}): {type(fb).__name__}: {fb}")
     f, bu = fb
+    R = env.R()
+    si_base = ({b for b in R.units if R.units[b].is_base} - {"gram"}) | {"kilogram"}
+    if not set(bu._units) <= si_base:
+        raise Violation(f"standard_base_units_not_SI:{name}", f"get_base_units({sp!r}) under the default (mks) system, asked after get_base_units(.., system='imperial'/'cgs'): {dict(bu._units)}")
     s, q2 = attempt(lambda: ureg.Quantity(f, bu).to(row["target"]) if row["target"] else ureg.Quantity(f, bu).to(ureg.UnitsContainer({})))
     if s == "err":
         raise Violation(f"standard_wrong_dimension:{name}", f"get_base_units({sp!r}) = {f!r} {dict(bu._units)}: {q2}")
